@@ -391,6 +391,19 @@ def gen_cases(rng, tier):
                     else:
                         b = ["num", a[1]]
                 cases.append({"kind": "cmp", "op": op, "a": a, "b": b, "group": "path:%s_%s_%s" % (lk, op, rk)})
+    # the same two units systems again and again, in every dimension (in use a model has a handful of systems: whatever is
+    # remembered per pair of systems meets that pair again with another dimension)
+    few = [list(rng.choice(systems)) for _ in range(3)]
+    for rep in range(40 if tier == "quick" else 1500):
+        sa, sb = rng.sample(few, 2)
+        d = rnd_dim(rng)
+        a = ["val", rnd_mag(rng), list(sa), list(d)]
+        b = ["val", rnd_mag(rng), list(sb), list(d)]
+        if rep % 2 == 0:
+            cases.append({"kind": "cmp", "op": rng.choice(sorted(CMP)), "a": a, "b": b, "group": "recurring_systems:cmp"})
+        else:
+            cases.append({"kind": "expr", "tree": ["bin", rng.choice(OPS), a, ["arr", [rnd_mag(rng), rnd_mag(rng)], list(sb), list(d)] if rep % 4 == 1 else b],
+                          "group": "recurring_systems:arith"})
     # random trees
     ntrees = 600 if tier == "quick" else 20000
     for i in range(ntrees):
